@@ -541,6 +541,10 @@ Builtin(N, st, name, a, multi, ln) ==
             ELSE IF n = 0 \/ a1 = False \/ a1 = Nil
             THEN RetV(AllocObj(st, [o |-> "ud", mt |-> 0]), <<<<"u", uref>>>>, multi)
             ELSE Fault(st, ln))
+      [] name = "gret" ->      \* host function: returns exactly a1 values taken from the rest (nil-padded)
+           (IF a1[1] # "n" \/ a1[2] < 0 \/ a1[2] > 50 THEN Unmod(st, "gret count") ELSE RetV(st, AdjustN(SubSeq(a, 2, n), a1[2]), multi))
+      [] name = "gcall" ->     \* host function re-entering Lua: calls a1 with the rest, returns all results
+           (IF n = 0 THEN Fault(st, ln) ELSE CallValue(st, a1, SubSeq(a, 2, n), multi, NoPos))
       [] name = "co.create" ->
            (IF ~(a1[1] = "f") THEN (IF IsFn(a1) THEN Unmod(st, "coroutine over host function") ELSE Fault(st, ln))
             ELSE RetV(AllocObj(st, [o |-> "co", status |-> "suspended", started |-> FALSE, fn |-> a1,
@@ -724,7 +728,7 @@ Step(N, st) ==
 (* ---- initial state ------------------------------------------------------------------------------- *)
 GlobalNames == <<"emit", "type", "tostring", "tonumber", "select", "unpack", "rawget", "rawset", "rawequal",
                  "next", "pairs", "ipairs", "setmetatable", "getmetatable", "pcall", "xpcall", "error", "assert",
-                 "getfenv", "setfenv", "newproxy">>
+                 "getfenv", "setfenv", "newproxy", "gret", "gcall">>
 CoNames == <<"create", "resume", "yield", "status", "wrap", "running">>
 
 (* heap: 1 = globals, 2 = main closure, 3 = coroutine table, 4 = string metatable, 5 = string table *)
